@@ -104,7 +104,11 @@ def gen_spec(r, idx):
         modes = ['read', 'inner'] if not spec['sig']['posonly'] else ['read']
     spec['closure'] = [(n, r.choice(modes)) for n in names]
     spec['empty'] = [n for n, m in spec['closure'] if m in ('read', 'inner') and r.random() < 0.08]
-    spec['instances'] = 3 if (kind == 'nested' and r.random() < 0.25) else 1
+    # several function objects sharing ONE code object (the enclosing function called repeatedly): they are served by
+    # one cached factory.  `bases` are the values their (distinct) cells hold at conversion time -- equal contents,
+    # different contents and mixtures, since cells compare by contents
+    spec['instances'] = 3 if (kind in ('nested', 'lambda', 'method', 'decorated') and r.random() < 0.3) else 1
+    spec['bases'] = r.choice([[0, 0, 0], [0, 50, 100], [0, 0, 50], [50, 0, 0]])
     spec['default_kind'] = [r.choice(['tag', 'tag', 'local', 'mutable', 'const']) for _ in range(12)]
     spec['bound'] = r.random() < 0.6
     spec['ndeco'] = r.choice([1, 1, 2]) if kind == 'decorated' else 0
@@ -827,8 +831,11 @@ def oracle(r, loaded, o, get_all, set_var, decos, calls_budget=3):
             fails.append(('closure', 'free variable %s of the original is not a free variable of the result' % n))
         elif ccells[n] is not c:
             other = [m for m, d in ocells.items() if d is ccells[n]]
+            prior = getattr(o, 'prior_cells', {}).get(id(ccells[n]))
             fails.append(('closure', 'free variable %s is bound to %s' % (
-                n, 'the cell of %s' % other[0] if other else 'a cell that is not the original one')))
+                n, 'the cell of %s' % other[0] if other else
+                ('the cell of %s of function object #%d created earlier from the same code object' % (prior[1], prior[0])
+                 if prior else 'a cell that is not the original one'))))
     for n, c in ccells.items():
         if n not in ocells and any(c is d for d in ocells.values()):
             fails.append(('closure', 'new free variable %s is bound to an original cell' % n))
@@ -970,7 +977,9 @@ def check(run):
                 'decorated; 0-2 positional-only, 0-3 positional, *args, 0-3 keyword-only, **kwargs, 0..all defaults, '
                 'default expressions of 4 kinds, annotations; 0-5 closure variables in 7 usage modes '
                 '(read, write, nonlocal-only, through nested def, conditional write, loop write, emptied cell), shuffled '
-                'definition / reference order, 3 instances sharing one code object in a quarter of the nested cases, '
+                'definition / reference order, 3 function objects sharing one code object in 30% of the closure cases (cell '
+                'contents equal / different / mixed at conversion time) + a stream of sibling closures with equal or '
+                'unassigned cells converted back to back, '
                 'defaults cleared / replaced after definition in a separate stream; + 6 fixed special shapes; '
                 'distinct non-trivial = distinct (kind, parameter-kind shape, default pattern, closure usage modes)')
     tmp = vlib.ensure_dir(os.path.join(vlib.BUILD, 'tmp', 'c09-%d' % os.getpid()))
@@ -1061,14 +1070,41 @@ def _check(run, tmp):
             spec2['alias_of'] = src
             src2, dsrc2, decos2 = render(spec2)
             items.append((spec2, src2, dsrc2, decos2))
+        # the stream of sibling closures: one code object, distinct cells with EQUAL contents (or all still
+        # unassigned) at conversion time, converted one right after the other
+        n_sib = 16 if run.tier == 'quick' else 120
+        for i in range(n_sib):
+            spec = gen_spec(r, len(items))
+            spec['kind'] = r.choice(['nested', 'nested', 'method', 'lambda'])
+            spec['ndeco'] = 0
+            spec['cleared'] = None
+            spec['instances'] = r.choice([2, 3])
+            spec['bases'] = [0, 0, 0]
+            names = r.sample(CLOSURE_POOL, r.choice([1, 2, 3]))
+            if spec['kind'] == 'lambda':
+                spec['sig']['posonly'] = []
+                modes = ['read', 'inner']
+            else:
+                modes = ['read', 'write', 'write', 'cond_write', 'inner', 'loop_write']
+            spec['closure'] = [(n, r.choice(modes)) for n in names]
+            spec['empty'] = []
+            if i % 4 == 3:        # every cell still unassigned when the functions are converted
+                spec['closure'] = [(n, 'read') for n in names]
+                spec['empty'] = list(names)
+            src, dsrc, decos = render(spec)
+            items.append((spec, src, dsrc, decos))
         for spec, src, dsrc, decos in items:
             try:
                 loaded = Loaded(tmp, src, 'm')
             except Exception as e:   # noqa
                 run.note('generator produced an unloadable module (%s): %s' % (e, src[:200]))
                 continue
+            bases = spec.get('bases') or [0, 50, 100]
+            keep_alive = []
+            prior_cells = {}
             for inst_no in range(spec['instances']):
-                target, get_all, set_var = loaded.ns['mk'](inst_no * 50)
+                target, get_all, set_var = loaded.ns['mk'](bases[inst_no % len(bases)])
+                keep_alive.append((target, get_all, set_var))
                 fn = underlying(target)
                 if spec['cleared']:
                     c = spec['cleared']
@@ -1088,6 +1124,9 @@ def _check(run, tmp):
                 o = convert_and_observe(hooks, loaded, target, node)
                 run.count()
                 idx = len(case_info)
+                o.prior_cells = dict(prior_cells)
+                for n_, c_ in zip(fn.__code__.co_freevars, fn.__closure__ or ()):
+                    prior_cells[id(c_)] = (inst_no, n_)
                 fails = oracle(r, loaded, o, get_all, set_var, decos, 3 if run.tier == 'quick' else 6)
                 run.count(getattr(o, 'ncalls', 0))
                 if getattr(o, 'annotation_difference', None):
@@ -1101,7 +1140,7 @@ def _check(run, tmp):
                     run.nontriv(key)
                 n_kinds[spec['kind'].split(':')[0]] = n_kinds.get(spec['kind'].split(':')[0], 0) + 1
                 info = {'spec': spec, 'src': src, 'fails': fails, 'fn': fn, 'cf': o.cf, 'node': node,
-                        'instance': inst_no, 'error': o.error, 'aliased': o.aliased,
+                        'instance': inst_no, 'bases': list(bases[:inst_no + 1]), 'error': o.error, 'aliased': o.aliased,
                         'alias_of': spec.get('alias_of')}
                 if o.aliased:
                     n_aliased[0] += 1
@@ -1212,11 +1251,13 @@ def _check(run, tmp):
         rep = {'what': [m for _, m in info['fails']][:6], 'failure_kinds': list(kinds),
                'converted_first_module_source': info.get('alias_of') if info.get('aliased') else None,
                'kind': info['spec']['kind'], 'module_source': info['src'],
-               'instance': info['instance'], 'after_definition': how,
+               'instance': info['instance'], 'bases': info.get('bases') or [info['instance'] * 50],
+               'after_definition': how,
                'conversion_error': info['error'],
                'replay': 'bin/check C09 --replay <this file>  (loads module_source with the support globals _d/_deco, '
-                         'calls mk(%d), applies after_definition to the function, converts it with malt.impl.api.to_graph '
-                         'and re-judges it)' % (info['instance'] * 50)}
+                         'calls mk(b) for every b in bases -- function objects sharing one code object -- and converts '
+                         'each in that order with malt.impl.api.to_graph, applies after_definition to the last one '
+                         'before converting it, and re-judges the last one)'}
         title = '%s: %s' % (', '.join(kinds), info['fails'][0][1][:160])
         run.violation(title, rep, classify=classify)
     if real == 0:
@@ -1275,15 +1316,21 @@ def replay(path):
     os.environ['TMPDIR'] = tmp
     try:
         loaded = Loaded(tmp, textwrap.dedent(src).lstrip(), 'r')
-        target, get_all, set_var = loaded.ns['mk'](rep.get('instance', 0) * 50)
-        fn = underlying(target)
+        bases = rep.get('bases') or [rep.get('instance', 0) * 50]
         how = rep.get('after_definition')
-        if how and 'replaced' not in how:
-            exec(how, {'f': fn})
         hooks = Hooks()
+        keep_alive = []
+        fails = []
         try:
-            o = convert_and_observe(hooks, loaded, target, None)
-            fails = oracle(random.Random(0), loaded, o, get_all, set_var, [], 6)
+            for i, b in enumerate(bases):
+                target, get_all, set_var = loaded.ns['mk'](b)
+                keep_alive.append((target, get_all, set_var))
+                fn = underlying(target)
+                if i == len(bases) - 1 and how and 'replaced' not in how and not how.startswith('(none)'):
+                    exec(how, {'f': fn})
+                o = convert_and_observe(hooks, loaded, target, None)
+                if i == len(bases) - 1:
+                    fails = oracle(random.Random(0), loaded, o, get_all, set_var, [], 6)
         finally:
             hooks.close()
         print('re-judged on %s: %s' % (vlib.REPO, fails if fails else 'no failure'))
